@@ -12,11 +12,11 @@ from lib.common import *
 from lib.masm_render import Renderer
 
 
-def gen(kind, shards, wd):
+def gen(kind, shards, wd, level=1):
     def one(sh):
         cfgp = os.path.join(wd, "GEN_Hints_%s_%d.cfg" % (kind, sh))
         with open(cfgp, "w") as f:
-            f.write('CONSTANTS KIND = "%s" LEVEL = 1 SHARD = %d NSHARDS = %d\nINIT Init\nNEXT Next\nCHECK_DEADLOCK FALSE\n' % (kind, sh, shards))
+            f.write('CONSTANTS KIND = "%s" LEVEL = %d SHARD = %d NSHARDS = %d\nINIT Init\nNEXT Next\nCHECK_DEADLOCK FALSE\n' % (kind, level, sh, shards))
         return tlc_or_die("GEN_Hints.tla", cfg=cfgp, cwd=os.path.join(SPEC, "gen"), workers=4, timeout=3000, heap="6g")
     with cf.ThreadPoolExecutor(max_workers=4) as ex:
         return list(ex.map(one, range(shards)))
@@ -70,7 +70,7 @@ def run(tier, replay=None):
             scs = [json.load(f)["replay"]["scenario"]]
     else:
         for kind, shards in (("count", 4), ("ext2", 2), ("u64div", 8), ("adv", 1), ("merkle", 1)):
-            for r in gen(kind, shards, wd):
+            for r in gen(kind, shards * (2 if tier == "thorough" else 1), wd, level=2 if tier == "thorough" else 1):
                 ck.add_tlc(r)
                 scs += [merkle_rec(x) if x["kind"] == "merkle" else x for x in json_prints(r, "hint")]
     inp = os.path.join(wd, "hint_scenarios.ndjson")
